@@ -17,9 +17,21 @@ func (s *Service) blockPeer(peer core.PeerID, dur time.Duration, reason string) 
 	s.blockMu.Lock()
 	defer s.blockMu.Unlock()
 
+	now := time.Now()
+	if cur, ok := s.blockMap[peer]; ok {
+		// never weaken a block that is already in place: a permanent block
+		// stays, and a timed block is only replaced by one that ends later.
+		if cur.duration == 0 {
+			return
+		}
+		if dur != 0 && now.Add(dur).Before(cur.start.Add(cur.duration)) {
+			return
+		}
+	}
+
 	s.blockMap[peer] = blockInfo{
 		reason:   reason,
-		start:    time.Now(),
+		start:    now,
 		duration: dur,
 	}
 }
